@@ -486,10 +486,21 @@ def write_evidence(pr: PropertyRun, mod, results: List["solve.Result"], n_obl: i
     by_backend: Dict[str, int] = {}
     tsolve = 0.0
     per_obl: Dict[str, Dict] = {}
+    syntactic_fns: Dict[str, str] = {}
     for r in results:
         tsolve += r.time
+        # an obligation whose goal is a Boolean constant was decided by the syntactic / finite-case machinery (pyvc/astcheck.py); the solver only relays it
+        syntactic = not r.vc.pc and (z3.is_true(r.vc.goal) or z3.is_false(r.vc.goal))
         if r.status == "unsat":
-            by_backend[r.backend] = by_backend.get(r.backend, 0) + 1
+            b = "ast (syntactic / finite case)" if syntactic else r.backend
+            by_backend[b] = by_backend.get(b, 0) + 1
+        if r.vc.kind not in ("post", "raises", "frame", "noraise") or syntactic:
+            fq = r.vc.func.split("/")[0]
+            if fq not in pr.functions and not fq.startswith(("tree:", "canary:")):
+                try:
+                    syntactic_fns[fq] = pr.tree.func(fq).source_sha1() + " (syntactic / decision-table obligations)"
+                except Exception:
+                    syntactic_fns.setdefault(fq, "module-level or class-level obligations")
         o = per_obl.setdefault(r.vc.name, {"paths": 0, "discharged": 0, "loc": r.vc.loc, "max_s": 0.0})
         o["paths"] += 1
         o["discharged"] += 1 if r.status == "unsat" else 0
@@ -504,7 +515,7 @@ def write_evidence(pr: PropertyRun, mod, results: List["solve.Result"], n_obl: i
         "checker_cmd": f"bin/verif check {pr.pid} --tier {pr.tier}  (pyvc AST->SMT over {pr.repo}/src/rp2; z3 {z3.get_version_string()} rlimit, cvc5 1.0.3 for unknowns)",
         "trusted_base": sorted(set(getattr(mod, "TRUSTED", []) + ["pyvc (home-made VC generator, guarded by canaries and the CPython cross-check)"])),
         "samples": samples,
-        "functions_under_contract": pr.functions,
+        "functions_under_contract": {**syntactic_fns, **pr.functions},
         "distinct_obligation_names": len(per_obl),
         "by_backend": by_backend,
         "solver_time_s": round(tsolve, 2),
